@@ -633,6 +633,69 @@ const PROBES: [(&str, &str, &str); 8] = [
     ("key_static_labels", "Key", "{ let labels = vec![Label::new(local.clone(), \"v\")]; Key::from_static_labels(\"n\", labels.as_slice()) }"),
 ];
 
+thread_local! {
+    static ZST_DROPS: std::cell::Cell<u64> = std::cell::Cell::new(0);
+}
+
+/// A zero-sized element type with a destructor: `Vec<Zst>` reports capacity usize::MAX, the value the
+/// representation reserves for "shared".
+#[derive(Clone)]
+struct Zst;
+
+impl Drop for Zst {
+    fn drop(&mut self) {
+        ZST_DROPS.with(|d| d.set(d.get() + 1));
+    }
+}
+
+/// Slices of zero-sized elements built from an owned vector: the library may refuse them (a panic that unwinds
+/// cleanly and drops the vector's elements once) or handle them like any owned value; it must not treat them as
+/// shared (the Arc bookkeeping would then run on a dangling pointer — the supervised worker reports the crash).
+pub fn case_zst(bytes: &[u8], _s: &[u8], ctx: &mut Ctx) -> Result<(), Fail> {
+    let mut src = Source::new(bytes);
+    let n = src.below(5);
+    let via_from = src.bool();
+    let clones = src.below(3);
+    let into_owned = src.bool();
+    ctx.case(&("zero-sized elements", n, via_from, clones, into_owned));
+    ctx.nontrivial("owned-vector-of-zero-sized-elements-with-destructors");
+    ZST_DROPS.with(|d| d.set(0));
+    let built = std::panic::catch_unwind(|| {
+        let v: Vec<Zst> = (0..n).map(|_| Zst).collect();
+        let cow: Cow<'static, [Zst]> = if via_from { Cow::from(v) } else { Cow::from_owned(v) };
+        cow
+    });
+    match built {
+        Err(_) => {
+            ctx.class("owned-zero-sized-slice-refused");
+            let d = ZST_DROPS.with(|d| d.get());
+            // (the vector has been taken apart before the refusal, so its elements are forgotten rather than dropped: no
+            // allocation is involved and nothing is dropped twice, which is all that is asserted on this path)
+            ensure!(d <= n as u64, "element-drop-count", "the library refused a Vec of {} zero-sized elements by panicking, and {} destructors ran while unwinding", n, d);
+        }
+        Ok(cow) => {
+            ctx.class("owned-zero-sized-slice-accepted");
+            ensure!(cow.len() == n, "content-differs", "Cow<[Zst]> built from {} elements reads {} elements", n, cow.len());
+            let copies: Vec<Cow<'static, [Zst]>> = (0..clones).map(|_| cow.clone()).collect();
+            for c in &copies {
+                ensure!(c.len() == n, "content-differs", "a clone of a Cow<[Zst]> of {} elements reads {} elements", n, c.len());
+            }
+            if into_owned {
+                let v: Vec<Zst> = cow.into_owned();
+                ensure!(v.len() == n, "content-differs", "into_owned of a Cow<[Zst]> of {} elements gives {} elements", n, v.len());
+                drop(v);
+            } else {
+                drop(cow);
+            }
+            drop(copies);
+            let d = ZST_DROPS.with(|d| d.get());
+            let want = (n * (1 + clones)) as u64;
+            ensure!(d == want, "element-drop-count", "{} zero-sized elements, {} clones of the slice: {} destructor runs by the end, {} expected", n, clones, d, want);
+        }
+    }
+    Ok(())
+}
+
 fn probes(pr: &PropRun) -> crate::engine::runner::LaneReport {
     use crate::engine::runner::{LaneReport, Violation};
     use std::process::Command;
@@ -716,6 +779,7 @@ pub fn run(cfg: &RunCfg, replay: Option<&str>) -> i32 {
     pr.register("ops-allocation-tracked", &case_tracked);
     pr.register("ops-with-threads", &case_threads);
     pr.register("ill-typed-programs-rejected", &case_probe_replay);
+    pr.register("zero-sized-elements", &case_zst);
     if let Some(f) = replay {
         return pr.replay(f);
     }
@@ -728,6 +792,8 @@ pub fn run(cfg: &RunCfg, replay: Option<&str>) -> i32 {
     let r = run_lane(&c, "C14", &Lane { name: "ops-allocation-tracked", cases: c.cases(2_000_000, 30_000_000), max_len: 128, sched_len: 0, workers: 0, f: &case_tracked });
     pr.push(r);
     let r = run_lane(&c, "C14", &Lane { name: "ops-with-threads", cases: c.cases(60_000, 1_000_000), max_len: 128, sched_len: 0, workers: 0, f: &case_threads });
+    pr.push(r);
+    let r = run_lane(&c, "C14", &Lane { name: "zero-sized-elements", cases: c.cases(4_000, 100_000), max_len: 8, sched_len: 0, workers: 1, f: &case_zst });
     pr.push(r);
     let r = exhaustive(&pr);
     pr.push(r);
